@@ -94,3 +94,48 @@ V('C10-notation-redefined', 'C10', [(PG + 'pattern.py', "_or = Notation('or', 2,
 V('C10-thunk-built-in-library', 'C10', [(PP, '    def top_intro(self) -> ProofThunk:\n        """top"""\n        return self.imp_refl(bot())', '    def top_intro(self) -> ProofThunk:\n        """top"""\n        from proof_generation.proof import ProofThunk as PT\n        return ProofThunk(lambda i: self.imp_refl(bot())(i), top())')], names='thunk-confinement')
 V('C10-twin-renamed-local', 'C10', [(PP, '        q = q_pf.conc\n        return self.modus_ponens(self.prop1_inst(q, p), q_pf)', '        concl = q_pf.conc\n        step = self.prop1_inst(concl, p)\n        return self.modus_ponens(step, q_pf)')], expect='silent')
 V('C10-twin-other-derivation', 'C10', [(PP, '    def top_intro(self) -> ProofThunk:\n        """top"""\n        return self.imp_refl(bot())', '    def top_intro(self) -> ProofThunk:\n        """top"""\n        return self.bot_elim(bot())')], expect='silent')
+
+# ---------------------------------------------------------------- C07
+BI = PG + 'basic_interpreter.py'
+ST = PG + 'stateful_interpreter.py'
+SER = PG + 'serializing_interpreter.py'
+V('C07-mp-assert-deleted', 'C07', [(BI, "        assert l == right.conclusion, str(l) + ' != ' + str(right.conclusion)\n", '')], names='modus_ponens')
+V('C07-mp-assert-wrong-side', 'C07', [(BI, "        assert l == right.conclusion, str(l) + ' != ' + str(right.conclusion)", "        assert l == left.conclusion, str(l) + ' != ' + str(right.conclusion)")], names='modus_ponens')
+V('C07-mp-returns-antecedent', 'C07', [(BI, '        return Proved(r)\n\n    def exists_quantifier', '        return Proved(l)\n\n    def exists_quantifier')], names='modus_ponens')
+V('C07-gen-assert-deleted', 'C07', [(BI, "        assert r.evar_is_free(var.name), f'{str(var)} in FV({str(r)})'\n", '')], names='exists_generalization')
+V('C07-gen-fresh-in-left', 'C07', [(BI, "        assert r.evar_is_free(var.name), f'{str(var)} in FV({str(r)})'", "        assert l.evar_is_free(var.name), f'{str(var)} in FV({str(r)})'")], names='exists_generalization')
+V('C07-override-recomputes', 'C07', [(ST, '        ret = super().modus_ponens(left, right)\n        self.stack.append(ret)\n        return ret', '        ret = super().modus_ponens(left, right)\n        self.stack.append(ret)\n        return Proved(ret.conclusion)')], names='StatefulInterpreter.modus_ponens')
+V('C07-override-swaps-args', 'C07', [(SER, '        ret = super().modus_ponens(left, right)', '        ret = super().modus_ponens(right, left)')], names='SerializingInterpreter.modus_ponens')
+V('C07-extract-no-assert', 'C07', [(PG + 'pattern.py', "        assert ret is not None, f'Expected a/an {cls.__name__} but got instead: {str(pattern)}\\n'\n", '')], names='Pattern.extract')
+V('C07-twin-if-raise', 'C07', [(BI, "        assert l == right.conclusion, str(l) + ' != ' + str(right.conclusion)", "        if l != right.conclusion:\n            raise AssertionError(str(l) + ' != ' + str(right.conclusion))")], expect='silent')
+V('C07-twin-no-local', 'C07', [(BI, '        left_conclusion = left.conclusion\n        l, r = Implies.extract(left_conclusion)', '        l, r = Implies.extract(left.conclusion)')], expect='silent')
+
+# ---------------------------------------------------------------- C08
+IT = PG + 'interpreter_transformer.py'
+V('C08-forwarder-swaps', 'C08', [(IT, '        ret = self.sub_interpreter.modus_ponens(left, right)', '        ret = self.sub_interpreter.modus_ponens(right, left)')], names='modus_ponens')
+V('C08-forwarder-no-return', 'C08', [(IT, '        ret = self.sub_interpreter.implies(left, right)\n        return ret', '        ret = self.sub_interpreter.implies(left, right)\n        return left')], names='implies')
+V('C08-forwarder-wrong-method', 'C08', [(IT, '        ret = self.sub_interpreter.app(left, right)', '        ret = self.sub_interpreter.implies(left, right)')], names='InterpreterTransformer.app')
+V('C08-thunk-assert-deleted', 'C08', [(PG + 'proof.py', '        assert proved.conclusion == self.conc\n', '')], names='ProofThunk.__call__')
+V('C08-proved-minted-in-optimizer', 'C08', [(PG + 'optimizing_interpreters.py', '            ret = super().pattern(p)\n            self.save(repr(p), p)\n            return ret', '            ret = super().pattern(p)\n            self.save(repr(p), p)\n            from proof_generation.proved import Proved\n            _ = Proved(p)\n            return ret')], names='proved-confinement')
+V('C08-static-mp-wrong', 'C08', [(PG + 'proof.py', '        return ProofThunk((lambda interpreter: interpreter.modus_ponens(left(interpreter), right(interpreter))), q)', '        return ProofThunk((lambda interpreter: interpreter.modus_ponens(left(interpreter), right(interpreter))), p)')], names='static-conclusion')
+V('C08-static-prop1-wrong', 'C08', [(PG + 'proof.py', '        return ProofThunk((lambda interpreter: interpreter.prop1()), Implies(phi0, Implies(phi1, phi0)))', '        return ProofThunk((lambda interpreter: interpreter.prop1()), Implies(phi0, Implies(phi1, phi1)))')], names='prop1')
+V('C08-optimizer-other-map', 'C08', [(PG + 'optimizing_interpreters.py', '        ret = b_interp.instantiate(proved, delta)', '        ret = b_interp.instantiate(proved, dict(list(delta.items())[:1]))')], names='InstantiationOptimizer.instantiate')
+V('C08-twin-forwarder-inline', 'C08', [(IT, '        ret = self.sub_interpreter.mu(var, subpattern)\n        return ret', '        return self.sub_interpreter.mu(var, subpattern)')], expect='silent')
+
+# ---------------------------------------------------------------- C04
+V('C04-append-dropped', 'C04', [(ST, '        ret = super().prop2()\n        self.stack.append(ret)\n        return ret', '        ret = super().prop2()\n        return ret')], names='prop2')
+V('C04-pop-one-instead-of-two', 'C04', [(ST, '    def app(self, left: Pattern, right: Pattern) -> Pattern:\n        *self.stack, expected_left, expected_right = self.stack\n        assert expected_left == left\n        assert expected_right == right', '    def app(self, left: Pattern, right: Pattern) -> Pattern:\n        *self.stack, expected_right = self.stack\n        assert expected_right == right')], names='app')
+V('C04-load-index-of-other-term', 'C04', [(SER, '        self.out.write(bytes([Instruction.Load, self.memory.index(term)]))', '        self.out.write(bytes([Instruction.Load, self.memory.index(self.stack[-1])]))')], names='load-address')
+V('C04-memory-append-in-pop', 'C04', [(ST, '        self.stack.pop()\n        super().pop(term)', '        self.stack.pop()\n        self.memory.append(term)\n        super().pop(term)')], names='pop')
+V('C04-phase-keeps-stack', 'C04', [(ST, '    def into_proof_phase(self) -> None:\n        self.stack = []\n', '    def into_proof_phase(self) -> None:\n')], names='into_proof_phase')
+V('C04-publish-axiom-no-memory', 'C04', [(ST, '        self.memory.append(Proved(axiom))\n', '')], names='memory')
+V('C04-twin-explicit-pops', 'C04', [(ST, '    def exists(self, var: int, subpattern: Pattern) -> Pattern:\n        *self.stack, expected_subpattern = self.stack\n        assert expected_subpattern == subpattern', '    def exists(self, var: int, subpattern: Pattern) -> Pattern:\n        expected_subpattern = self.stack[-1]\n        assert expected_subpattern == subpattern\n        self.stack.pop()')], expect='silent')
+
+# ---------------------------------------------------------------- C14
+DS = PG + 'deserialize.py'
+V('C14-new-opcode-without-reader', 'C14', [(SER, '        self.out.write(bytes([Instruction.Prop3]))', '        self.out.write(bytes([Instruction.Existence]))')], names='Existence')
+V('C14-reader-swapped-slots', 'C14', [(DS, "            right = interpreter.stack[-1]\n            left = interpreter.stack[-2]\n            _ = interpreter.implies(left, right)", "            right = interpreter.stack[-2]\n            left = interpreter.stack[-1]\n            _ = interpreter.implies(left, right)")], names='Implies')
+V('C14-reader-drops-operand', 'C14', [(DS, "            id = next_byte('Expected Mu binder id.')\n            subpattern = interpreter.stack[-1]\n            _ = interpreter.mu(id, subpattern)", "            id = 0\n            subpattern = interpreter.stack[-1]\n            _ = interpreter.mu(id, subpattern)")], names='Mu')
+V('C14-reader-calls-other-method', 'C14', [(DS, "            _ = interpreter.prop2()", "            _ = interpreter.prop1()")], names='Prop2')
+V('C14-else-does-not-raise', 'C14', [(DS, "            raise NotImplementedError(f'Unknown instruction: {instruction}')", "            pass")], names='decode-loop')
+V('C14-twin-reader-renamed-locals', 'C14', [(DS, "            right = interpreter.stack[-1]\n            left = interpreter.stack[-2]\n            _ = interpreter.app(left, right)", "            top = interpreter.stack[-1]\n            below = interpreter.stack[-2]\n            _ = interpreter.app(below, top)")], expect='silent')
